@@ -9,6 +9,7 @@ import (
 	"math/big"
 	"math/rand"
 	"reflect"
+	"strings"
 
 	fpgo "github.com/TeaEntityLab/fpGo/v2"
 )
@@ -161,6 +162,13 @@ func c02Concretise(c *c02Case) (val interface{}, exact *big.Float, isNaN bool, i
 	case "halfbelow", "nhalfbelow", "odd52", "nodd52":
 		f := map[string]float64{"halfbelow": 0.49999999999999994, "nhalfbelow": -0.49999999999999994, "odd52": 4503599627370497, "nodd52": -4503599627370497}[c.Kind]
 		return f, new(big.Float).SetPrec(200).SetFloat64(f), false, 0
+	case "strlead0":
+		txt := []string{"010", "-0755", "000123", "+7", "007", "0000", "-00", "08"}[c.D]
+		bf, _, err := big.ParseFloat(strings.TrimPrefix(txt, "+"), 10, 300, big.ToNearestEven)
+		if err != nil {
+			panic(err)
+		}
+		return txt, bf, false, 0
 	case "strfloatbig":
 		txt := []string{"3e9", "2147483648.0", "-2147483649.0", "1e30", "Inf", "NaN"}[c.D]
 		switch txt {
